@@ -175,7 +175,10 @@ def scenarios(ctx):
                         add(W, [rng.choice([2, 5])], ["killplay:%d:%d" % (j, k)], slow=0.1 if W > 1 else 0.0)
                     for r in (1, 2):
                         add(W, [rng.choice([1, 2, 5]), 2], ["killwait:%d:%d" % (j, r)])
-                    add(W, [rng.choice([1, 2, 5]), 2], ["killinit:%d" % j], slow=rng.choice([0.0, 0.2]), api=rng.choice(["play_many", "play_many_games"]))
+                    if rng.random() < 0.5:
+                        add(W, [rng.choice([1, 2, 5]), 2], ["killinit:%d" % j], slow=rng.choice([0.0, 0.2]))
+                    else:
+                        add(W, [rng.choice([1, 2, 5])], ["killinit:%d" % j], slow=rng.choice([0.0, 0.2]), api="play_many_games")
                 add(W, [5], ["game:%d:1" % j for j in js])
                 add(W, [2, 3, 2], pause=rng.choice([2.0, 4.0]), compress=rng.choice([100, 1000]))
                 add(W, [8, 2], ["killwait:0:1", "game:%d:2" % (W - 1)])
